@@ -61,8 +61,8 @@ from collections import Counter
 from harness import common
 
 PID = "C18"
-QUICK = {"handoff": 60, "hist": 120, "e2e": 10}
-THOROUGH = {"handoff": 1100, "hist": 1500, "e2e": 90}
+QUICK = {"handoff": 60, "hist": 120, "e2e": 10, "fault_studies": 3, "fault_cap": 48}
+THOROUGH = {"handoff": 1100, "hist": 1500, "e2e": 90, "fault_studies": 30, "fault_cap": 600}
 STUDY_NAME = "c08_study"
 
 
@@ -1015,6 +1015,174 @@ def snapshot_histories(ck, n, rng, tag="C18_snap"):
     return dict(sorted(dist.items())), nsnap
 
 
+def _pair_check(rows, csv_path, pkl_exists):
+    """final snapshot vs final status file -> None or what is wrong"""
+    has_csv = os.path.exists(csv_path)
+    if not pkl_exists and not has_csv:
+        return None                               # the conductor went down before its first poll ended: neither was written
+    if pkl_exists != has_csv:
+        return "status.csv %s but the snapshot %s" % ("exists" if has_csv else "is missing", "exists" if pkl_exists else "is missing")
+    if isinstance(rows, str):
+        return "the snapshot cannot be loaded in a fresh process: %s" % rows
+    try:
+        rc_ = csv_rows(csv_path)
+    except Exception as e:
+        return "status.csv unreadable: %r" % (e,)
+    if [x[:4] for x in rows] != rc_:
+        diff = [(a, b) for a, b in zip([x[:4] for x in rows], rc_) if a != b][:4]
+        return "snapshot and status.csv disagree on step states: (snapshot, status.csv) = %r" % (diff,)
+    return None
+
+
+def fault_histories(ck, nstudies, rng, cap, tag="C18_fault"):
+    """Histories through the REAL conductor (`conductor` entry point: cleanup() in its finally;
+    `maestro run -fg`) under the scripted scheduler, with a poll ABORTED by an exception raised from
+    write_script / submit / check_jobs / a status query answering ERROR -- at EVERY call index the
+    fault-free run of the study makes.  After the process has ended (normally or not) the snapshot
+    <name>.pkl, re-loaded in a fresh process, must show the step states of status.csv."""
+    from harness import e2e
+    tag = e2e.utag(tag)
+    work = os.path.join(common.WORK, tag + "_runs")
+    shutil.rmtree(work, ignore_errors=True)
+    os.makedirs(work)
+    bases = []
+    for i in range(nstudies):
+        case = e2e.gen_abort_study(rng, "submit")
+        case["faults"], case["expect_abort"] = [], None
+        if i % 2 == 1:                       # a TIMEDOUT + restart in the history
+            st = rng.choice(case["steps"])
+            st["restart"] = True
+            st["reports"] = ["RUNNING", "TIMEDOUT", "RUNNING", "FINISHED"]
+        bases.append(case)
+    base_res = e2e.pmap(e2e.run_scripted_case, [(c, os.path.join(work, "b%d" % i), "conductor") for i, c in enumerate(bases)])
+    jobs, base_jobs = [], []
+    for i, (case, res) in enumerate(zip(bases, base_res)):
+        d = os.path.join(work, "b%d" % i)
+        try:
+            log = [json.loads(ln) for ln in open(os.path.join(d, "adapter.log")).read().split("\n") if ln]
+        except Exception:
+            log = []
+        counts = Counter(e.get("call") for e in log)
+        if res["rc"] not in (0, 2, 3):
+            ck.mismatch("fault histories: the fault-free run did not reach a verdict (rc=%r)" % res["rc"], {"case": case}, res.get("tail", ""))
+        base_jobs.append({"case": case, "dir": d, "mode": "conductor", "fault": None, "rc": res["rc"]})
+        points = [(k, n) for k in ("write_script", "submit", "check_jobs") for n in range(counts.get(k, 0))]
+        points += [("qerror", n) for n in range(1, counts.get("check_jobs", 0))]
+        for (k, n) in points:
+            c2 = json.loads(json.dumps(case))
+            if k == "qerror":
+                c2["qcodes"] = ["OK"] * n + ["ERROR"]
+            else:
+                c2["faults"] = [{"call": k, "n": n, "exc": rng.choice(["OSError", "ValueError", "RuntimeError"])}]
+            jobs.append({"case": c2, "dir": os.path.join(work, "f%d_%s_%d" % (i, k, n)),
+                         "mode": "conductor" if (n + len(k)) % 3 else "fg", "fault": [k, n]})
+    todo = jobs if len(jobs) <= cap else rng.sample(jobs, cap)
+    results = e2e.pmap(e2e.run_scripted_case, [(j["case"], j["dir"], j["mode"]) for j in todo])
+    for j, r in zip(todo, results):
+        j["rc"] = r["rc"]
+    outp = os.path.join(work, "rows.json")
+    rc, out = _self(["snapcheck", work, outp])
+    try:
+        rows = json.load(open(outp))
+    except Exception:
+        ck.mismatch("fault histories: the fresh re-loading process did not complete", None, "rc=%d %s" % (rc, out[-400:]))
+        rows = None
+    dist = Counter()
+    n = 0
+    for j in base_jobs + todo:
+        if rows is None:
+            break
+        rel = os.path.join(os.path.relpath(j["dir"], work), "out", e2e.STUDY + ".pkl")
+        what = _pair_check(rows.get(rel), os.path.join(j["dir"], "out", "status.csv"), rel in rows)
+        n += 1
+        dist["fault:" + (j["fault"][0] if j["fault"] else "none")] += 1
+        dist["mode:" + j["mode"]] += 1
+        dist["exit:%s" % j.get("rc")] += 1
+        if rel not in rows:
+            dist["went_down_before_the_first_poll_ended"] += 1
+        ck.count("fault:" + json.dumps([j["case"]["steps"], j["fault"], j["mode"]], sort_keys=True), nontrivial=j["fault"] is not None)
+        if what:
+            ck.violation("after the conductor ended (%s; fault: %s; exit %s) %s" % (
+                "`conductor` entry point, cleanup() in its finally" if j["mode"] == "conductor" else "`maestro run -fg`",
+                "none" if not j["fault"] else "%s call #%d %s" % (j["fault"][0], j["fault"][1],
+                                                                  "answers ERROR" if j["fault"][0] == "qerror" else "raises"),
+                j.get("rc"), what), {"kind": "fault-history", "case": j["case"], "mode": j["mode"], "fault": j["fault"]})
+    shutil.rmtree(work, ignore_errors=True)
+    e2e.sweep()
+    return dict(sorted(dist.items())), n
+
+
+def long_chain(ck, nsteps, tag="C18_chain"):
+    """One LONG dependency chain (record -> record links, if the implementation keeps any, make the
+    object graph as deep as the chain): (i) an ExecutionGraph of nsteps chained steps pickled and
+    re-loaded as monitor_study does; (ii) the same study as local steps through the real
+    `maestro run -fg`: every per-poll snapshot and the final one re-loaded in a fresh process and
+    compared with the status.csv of the same poll."""
+    from harness import e2e
+    from harness import exec_harness as H
+    tag = e2e.utag(tag)
+    work = os.path.join(common.WORK, tag + "_runs")
+    shutil.rmtree(work, ignore_errors=True)
+    os.makedirs(work)
+    replay = {"kind": "long-chain", "steps": nsteps}
+    n = 0
+    # (i) in process
+    try:
+        H._setup()
+        from maestrowf.datastructures.core.executiongraph import ExecutionGraph
+        nodes = [{"parents": [] if i == 0 else [i - 1], "children": [i + 1] if i + 1 < nsteps else [],
+                  "scheduled": False, "has_restart": False, "rlimit": 0} for i in range(nsteps)]
+        live = os.path.join(work, "live")
+        os.makedirs(live)
+        dag = H.build_dag(nodes, {"throttle": 0, "attempts": 1, "dry": False}, live)
+        pk = os.path.join(live, "chain.pkl")
+        try:
+            dag.pickle(pk)
+            dag.write_status(live)
+            r2 = rows_of_graph(ExecutionGraph.unpickle(pk))
+            if [r[:4] for r in r2] != csv_rows(os.path.join(live, "status.csv")):
+                ck.violation("long chain (%d steps): re-loaded snapshot differs from status.csv" % nsteps, replay)
+        except Exception as e:
+            ck.violation("long chain (%d chained steps): the execution-graph snapshot cannot be written / re-loaded: %s: %s"
+                         % (nsteps, type(e).__name__, str(e)[:200]), replay)
+        n += 1
+    except Exception as e:
+        ck.mismatch("long chain: harness could not build the graph: %r" % (e,), replay, "")
+    # (ii) the real command line
+    steps = [{"name": "c%03d" % i, "deps": [] if i == 0 else ["c%03d" % (i - 1)], "use": [], "codes": [[0]],
+              "restart": False, "cancel": False, "shape": [], "end": "exit"} for i in range(nsteps)]
+    case = {"shape": "chain", "scenario": "allok", "steps": steps, "params": [], "attempts": 1, "throttle": 0, "rlimit": 1,
+            "hashws": False, "usetmp": False, "cancel": "no", "max_polls": nsteps + 20}
+    d = os.path.join(work, "run")
+    res = e2e.run_study_case((case, d, "fg"))
+    if res["rc"] != 0:
+        ck.violation("long chain (%d local steps, `maestro run -fg`): exit code %r, not 0; output tail: %s"
+                     % (nsteps, res["rc"], res.get("tail", "")[-700:]), replay)
+    else:
+        outp = os.path.join(work, "rows.json")
+        rc, out = _self(["snapcheck", d, outp])
+        try:
+            rows = json.load(open(outp))
+        except Exception:
+            rows = None
+            ck.mismatch("long chain: the fresh re-loading process did not complete", replay, "rc=%d %s" % (rc, out[-400:]))
+        if rows is not None:
+            npolls = len(glob.glob(os.path.join(d, "snap", "status.*.csv")))
+            pairs = [(os.path.join("snap", "graph.%d.pkl" % k), os.path.join(d, "snap", "status.%d.csv" % k)) for k in range(npolls)]
+            pairs.append((os.path.join("out", e2e.STUDY + ".pkl"), os.path.join(d, "out", "status.csv")))
+            for k, (pk, cs) in enumerate(pairs):
+                what = _pair_check(rows.get(pk), cs, pk in rows)
+                n += 1
+                if what:
+                    ck.violation("long chain (%d local steps, `maestro run -fg`), poll %d: %s" % (nsteps, k, what), replay)
+                    break
+            if npolls + 1 < nsteps:
+                ck.mismatch("long chain: only %d polls for %d chained steps" % (npolls + 1, nsteps), replay, "")
+    ck.count("long-chain:%d" % nsteps, nontrivial=True, n=max(1, n))
+    shutil.rmtree(work, ignore_errors=True)          # (no sweep here: this runs beside the hand-off part)
+    return {"steps": nsteps, "snapshots_compared": n}, n
+
+
 def snapshot_e2e(ck, n, rng, tag="C18_e2e"):
     """real `maestro run -fg` runs: <name>.pkl and status.csv as monitor_study left them at every poll"""
     from harness import e2e
@@ -1100,17 +1268,27 @@ def run(ck):
     budget = QUICK if ck.tier != "thorough" else THOROUGH
     rng = random.Random(ck.seed * 15485863 + 18)
     cases = corpus_cases() + [gen_handoff_case(rng, c08) for _ in range(budget["handoff"])]
+    import threading
+    chain_out = {}
+    th = threading.Thread(target=lambda: chain_out.update(r=long_chain(ck, 200)))     # sub-processes only overlap
+    th.start()
     d1, n1 = handoff_part(ck, cases, c08)
+    th.join()
     t3 = time.time()
     d2, n2 = snapshot_histories(ck, budget["hist"], rng)
     t4 = time.time()
     d3, n3 = snapshot_e2e(ck, budget["e2e"], rng)
+    t5 = time.time()
+    d4, n4 = fault_histories(ck, budget["fault_studies"], rng, budget["fault_cap"])
+    t6 = time.time()
+    d5, n5 = chain_out.get("r", ({"error": "long chain did not complete"}, 0))
+    t7 = time.time()
     ck.notes["timing_s"] = {"proofs": round(t1 - t0, 1), "structural": round(t2 - t1, 1), "handoff": round(t3 - t2, 1),
-                            "snapshot_histories": round(t4 - t3, 1), "snapshot_e2e": round(time.time() - t4, 1)}
+                            "snapshot_histories": round(t4 - t3, 1), "snapshot_e2e": round(t5 - t4, 1), "fault_histories": round(t6 - t5, 1), "long_chain": round(t7 - t6, 1)}
     for c in cases[:2]:
         ck.sample({k: c[k] for k in ("params", "steps", "cfg", "batch")})
-    ck.cov["traces_validated_against_impl"] = n1 + n2 + n3
-    ck.cov["input_distribution"] = {"handoff": d1, "snapshot_histories": d2, "snapshot_e2e": d3}
+    ck.cov["traces_validated_against_impl"] = n1 + n2 + n3 + n4 + n5
+    ck.cov["input_distribution"] = {"handoff": d1, "snapshot_histories": d2, "snapshot_e2e": d3, "fault_histories": d4, "long_chain": d5}
     ck.cov["rule"] = ("(a) corpus + seeded studies from C08's generator (streams valid/prefix/exotic) with typed value tables "
                       "(int/float/str/bool/mixed), template / per-row / default labels, execution configuration and "
                       "local/slurm/lsf/flux batch blocks: store in one process, load + stage in a fresh process per study, "
@@ -1145,7 +1323,30 @@ def replay(ck, path):
     from harness.props import c08
     d = json.load(open(path))
     d = d.get("case", d)
-    if "steps" in d and "batch" in d:
+    if d.get("kind") == "long-chain":
+        print(long_chain(ck, int(d.get("steps", 200)), tag="C18_replay_chain"))
+    elif d.get("kind") == "fault-history":
+        from harness import e2e
+        work = os.path.join(common.WORK, e2e.utag("C18_replay_fault"))
+        shutil.rmtree(work, ignore_errors=True)
+        os.makedirs(work)
+        jd = os.path.join(work, "f")
+        r = e2e.run_scripted_case((d["case"], jd, d.get("mode", "conductor")))
+        outp = os.path.join(work, "rows.json")
+        _self(["snapcheck", work, outp])
+        rows = json.load(open(outp))
+        rel = os.path.join("f", "out", e2e.STUDY + ".pkl")
+        print("exit code", r["rc"])
+        print("snapshot  :", rows.get(rel))
+        try:
+            print("status.csv:", csv_rows(os.path.join(jd, "out", "status.csv")))
+        except Exception as e:
+            print("status.csv:", repr(e))
+        what = _pair_check(rows.get(rel), os.path.join(jd, "out", "status.csv"), rel in rows)
+        if what:
+            ck.violation("after the conductor ended: " + what, d)
+        shutil.rmtree(work, ignore_errors=True)
+    elif "steps" in d and "batch" in d:
         d.setdefault("stream", "replay")
         dist, _ = handoff_part(ck, [d], c08, tag="C18_replay")
         print(json.dumps(dist, indent=1))
